@@ -15,4 +15,4 @@ Extraction "model.ml" io_witness N.div_eucl N.add N.mul N.pow
   dmx_set_from_string dmx_to_string dmx_text_in_finding
   ipv4_from_string ipv4_to_string sockaddr_from_string sockaddr_to_string
   cid_from_string cid_to_string nil_uuid stream_seq
-  ipv6_to_text ipv6_of_text ipv6_from_string v4_form words_of_bytes or_default.
+  ipv6_to_text ipv6_of_text ipv6_from_string v4_form words_of_bytes or_default dmx_step dmx_frame dmx_new.
